@@ -243,6 +243,9 @@ var allocatingStd = map[string]map[string]bool{
 	"slices":  {"Clone": true, "Collect": true, "Sorted": true, "AppendSeq": true},
 	"maps":    {"Clone": true, "Keys": true, "Values": true},
 	"net/url": {"Parse": true, "ParseQuery": true},
+	// the parsers of package net build a *net.AddrError / *net.ParseError for every input they reject: a request Host such
+	// as "[::1]" (no port) costs one allocation per request
+	"net": {"SplitHostPort": true, "ParseCIDR": true, "ResolveTCPAddr": true, "LookupHost": true},
 	"net/http": {"Error": true, "CanonicalHeaderKey": true},
 	"log":     {"Printf": true, "Println": true, "Print": true},
 	"regexp":  {"MustCompile": true, "Compile": true},
